@@ -144,7 +144,12 @@ def run_property(pid, tier, seed):
             active_known.append(e)
         else:
             rep.note('known finding no longer reproduces (not announced): ' + e['text'])
-    excl = sorted({e['matcher'] for e in active_known if e.get('matcher')})
+    excl = sorted({e['matcher'] for e in active_known
+                   if e.get('matcher') and not e['matcher'].startswith('label:')})
+    # enumerated programs that *are* a known finding (matcher "label:<substring>") are announced by
+    # their witness replay above and taken out of the job list; every other program stays
+    drop_labels = [e['matcher'][6:] for e in active_known
+                   if e.get('matcher') and e['matcher'].startswith('label:')]
 
     # ---- build jobs -----------------------------------------------------------------------------
     jobs = []
@@ -153,6 +158,8 @@ def run_property(pid, tier, seed):
         fam_by_name[fam['name']] = fam
         base = dict(family=fam['name'], module=fam['module'], fn=fam['fn'],
                     timeout=fam.get('timeout', 60))
+        fam['jobs'] = [c for c in fam['jobs']
+                       if not any(d in str(c.get('label', '')) for d in drop_labels)]
         for cfg in fam['jobs']:
             cfg = dict(cfg)
             if excl:
